@@ -475,26 +475,45 @@ func runC15History(t *testing.T, rec *Recorder, r *rand.Rand) {
 		lastInit = !first && x >= 8
 		if first || x < 6 {
 			// start, run until every fan has regulated for a few cycles, stop
+			// variations of a start (not the first): 1 = the regulation of one fan ends with a fault after a few cycles (its
+			// curve cannot be evaluated any more) - what is stored about the fan is not touched by that; 2 = the user runs
+			// `fan reset` for one fan WHILE the daemon is regulating (the command's body, in the bubble), then the daemon
+			// is stopped - what was discarded stays discarded
+			startVar := 0
+			if !first {
+				startVar = []int{0, 0, 1, 2}[r.Intn(4)]
+			}
+			victim := r.Intn(len(fansCfg))
 			synctest.Test(t, func(t *testing.T) {
-				cfg := RunCfg{Parallel: true, Dir: dir, Fans: fansCfg}
+				cfg := RunCfg{Parallel: true, Dir: dir, Fans: append([]RunFan{}, fansCfg...)}
+				if startVar == 1 {
+					cfg.Fans[victim].CurveErrAt = 2 + r.Intn(3)
+				}
 				h := NewRunHarness(rec, cfg)
 				defer h.Close(false)
 				ctx, cancel := context.WithCancel(context.Background())
 				defer cancel()
 				var mu sync.Mutex
 				cycles := map[string]int{}
+				stopping := false
 				h.OnEvent = func(n int, fanId, event string) {
 					if event == "CycleEnd" {
 						mu.Lock()
 						cycles[fanId]++
-						all := len(cycles) == len(cfg.Fans)
+						all := len(cycles) == len(cfg.Fans) && !stopping
 						for _, c := range cycles {
 							if c < 2 {
 								all = false
 							}
 						}
+						if all {
+							stopping = true
+						}
 						mu.Unlock()
 						if all {
+							if startVar == 2 {
+								_ = h.Cli(cfg.Fans[victim].ID, false)
+							}
 							rec.Emit(Ev{"ev": "Cancel", "why": "regulating"})
 							cancel()
 						}
